@@ -131,7 +131,10 @@ def run_rules(pid, rules, program, tier):
         if isinstance(res, RuleResult):
             res = [res]
         for r in res:
-            r.check_min()
+            # the instance floor guards against rules that silently match nothing;
+            # when the rule already reports a violation that is the verdict
+            if not r.violations:
+                r.check_min()
             results.append(r)
     return results, ctx
 
